@@ -61,6 +61,8 @@
 extern crate libc;
 
 mod half_lock;
+#[cfg(sighook_verif)]
+pub mod verif;
 
 use std::collections::hash_map::Entry;
 use std::collections::{BTreeMap, HashMap};
